@@ -185,7 +185,15 @@ impl Vm {
                 }
                 // TODO: compute gas_spent is not inferrable above
                 Some(ProgramControlFlow::ComputeResult((pc, gas, halt))) => {
-                    gas_spent += gas;
+                    gas_spent = gas_spent.checked_add(gas).ok_or(ExecError(
+                        self.pc,
+                        OutOfGasError {
+                            spent: gas_spent,
+                            op_gas: gas,
+                            limit: gas_limit.total,
+                        }
+                        .into(),
+                    ))?;
                     self.pc = pc;
                     self.halt |= halt;
                     if self.halt {
